@@ -78,6 +78,24 @@ class DiffOperator(operator.Operator, abc.ABC):
             isinstance(item, str) for item in order2
         )
 
+    def _move_coefficients(self, axes, rank):
+        """array coefficients of the declarations follow the operator's parameters to their `axes`
+        (arrays of higher rank than the parameters are taken as already aligned with the grid)"""
+
+        def move(coeff):
+            if 0 < np.ndim(coeff) <= rank:
+                return common.set_axes(0, np.asarray(coeff), axes)
+            return coeff
+
+        self.order1 = {
+            var: {param: move(coeff) for param, coeff in self.order1[var].items()}
+            for var in self.order1
+        }
+        self.order2 = {
+            pair: {param: move(coeff) for param, coeff in self.order2[pair].items()}
+            for pair in self.order2
+        }
+
     @property
     def parameters_order1(self):
         params = set(param for var in self.order1 for param in self.order1[var])
